@@ -29,13 +29,31 @@ def build():
 
 def build_traced_server():
     """the real server binary linked against the instrumented dashmap (lock nestings of the
-    providers, which exist only in the bin crate); returns (path or None, log)"""
+    providers, which exist only in the bin crate).  The patch changes Cargo.lock, so the build
+    runs on a scratch copy of the tree (source only, mtimes preserved so that cargo's fingerprints
+    stay valid), removed afterwards; only the build output stays under .build/.
+    Returns (path or None, log)"""
     tdir = os.path.join(core.BUILD, "target-traced")
+    src = "/dev/shm/plsv-traced-src"
     env = dict(core.ENV, CARGO_TARGET_DIR=tdir)
     with core.BuildLock():
-        rc, out = core.sh(["cargo", "build", "--offline", "--bin", "pytest-language-server",
-                           "--manifest-path", os.path.join(core.REPO, "Cargo.toml"),
-                           "--config", 'patch.crates-io.dashmap.path="%s"' % DASHMAP], env=env, timeout=3000)
+        shutil.rmtree(src, ignore_errors=True)
+        os.makedirs(src)
+        for name in os.listdir(core.REPO):
+            if name in ("target", ".git", "node_modules", ".venv", "venv"):
+                continue
+            a, b = os.path.join(core.REPO, name), os.path.join(src, name)
+            if os.path.isdir(a):
+                if name in ("src", "tests", "benches", "build", ".cargo") or os.path.exists(os.path.join(a, "Cargo.toml")):
+                    shutil.copytree(a, b, copy_function=shutil.copy2)
+            else:
+                shutil.copy2(a, b)
+        try:
+            rc, out = core.sh(["cargo", "build", "--offline", "--bin", "pytest-language-server",
+                               "--manifest-path", os.path.join(src, "Cargo.toml"),
+                               "--config", 'patch.crates-io.dashmap.path="%s"' % DASHMAP], env=env, timeout=3000)
+        finally:
+            shutil.rmtree(src, ignore_errors=True)
     p = os.path.join(tdir, "debug", "pytest-language-server")
     return (p if rc == 0 and os.path.exists(p) else None), out[-3000:]
 
@@ -99,7 +117,7 @@ def parse_kv(s):
     return out
 
 
-def run_scenarios(scenarios, shards=2, timeout=3600, tag="conc"):
+def run_scenarios(scenarios, shards=2, timeout=900, tag="conc"):
     """-> {scenario name: [(directive, parsed dict)]}, rc, wall"""
     path = os.path.join(core.BUILD, "%s-%d.conc" % (tag, os.getpid()))
     with open(path, "w") as f:
